@@ -35,6 +35,7 @@ Ops (slots a b c ∈ 0..3 hold datasets, v w ∈ 0..1 hold views):
   vset v i id l             V[v][i] = (id, l)              -- in place, through the view
   vrand v w k seed ! i0 …   V[w] = randomSubset(V[v], k); the positions the real code drew are fed back
   zero                      evaluate the generated optimalBatchSizes at 0 (F1 probe)
+  reset                     destroy all datasets and views (first op of every generated history)
 After every op the whole state is printed; `ind=xy` tells whether the input / label container of a slot is
 independent (`SharedContainer::isIndependent()`, i.e. every batch pointer has use-count 1).
 -/
@@ -93,6 +94,9 @@ def exec (s : St) (op : String) (a : List Nat) (obs : Option (List Nat)) : R (W 
   -- ops that read elements through the iterator demand non-empty batches (the harness answers `undefined` likewise)
   let needFull (k : Nat) : R Unit := do require (noEmptyBatch (← D k))
   match op, a with
+  | "reset", [] =>
+    -- all dataset objects and views are destroyed (first op of every generated history: histories are self-contained)
+    pure ({ d := [PLabeled.empty, PLabeled.empty, PLabeled.empty, PLabeled.empty], v := [none, none] }, "")
   | "new", a :: m :: base :: labels =>
     let n := labels.length
     if n = 0 then
